@@ -28,6 +28,11 @@ def QuiescentWF (s0 : St) (programs : List (List Op)) : Prop :=
   ∀ sched, allFinished (runSched programs sched s0).1 = true →
     WF (runSched programs sched s0).2.kv
 
+/-- the same statement about the operations as they were before the list lock (`Op.progOld`) -/
+def QuiescentWFOld (s0 : St) (programs : List (List Op)) : Prop :=
+  ∀ sched, allFinished (runSchedWith Op.progOld programs sched s0).1 = true →
+    WF (runSchedWith Op.progOld programs sched s0).2.kv
+
 /-! ### generic graph-level lemmas (in terms of the four views of a store) -/
 
 theorem wf_add_edge {m m' : KV} {eid a b : Nat} {d : Bool} {ty v : Nat}
@@ -218,9 +223,9 @@ theorem run1_addTo (k : Key) (e : Nat) (c : Prog) (s : St) :
 theorem run1_rmFrom (k : Key) (e : Nat) (c : Prog) (s : St) :
     run1 (rmFrom k e c) s = run1 c { s with kv := rmKV s.kv k e } := by
   unfold rmFrom rmKV
-  rw [run1]
+  rw [run1, run1]
   cases h : s.kv k with
-  | none => simp
+  | none => simp [run1]
   | some val => simp [run1]
 
 theorem outL_rmKV (m : KV) (k : Key) (e n : Nat) :
@@ -361,7 +366,7 @@ theorem wf_createEdgeFrom (s : St) (eid a b : Nat) (d : Bool) (ty v : Nat)
 
 theorem inv_createEdge (s : St) (a b : Nat) (d : Bool) (ty v : Nat) (h : Inv s) :
     Inv (apply s (.createEdge a b d ty v)).2 := by
-  simp only [apply, Op.prog, createEdgeProg, run1]
+  simp only [apply, Op.prog, createEdgeProg, createEdgeCheckB, createEdgeAlloc, run1]
   by_cases ha : (s.kv (.node a)).isSome = true
   · by_cases hb : (s.kv (.node b)).isSome = true
     · simp only [ha, hb, Bool.not_true, Bool.false_eq_true, ↓reduceIte, run1]
